@@ -11,9 +11,9 @@ def mut(name, file, old, new, checks, note=""):
 # ---- C01
 mut("c01_push_lt", "src/blob/index/core.rs", "v[pos].timestamp() <= h.timestamp()", "v[pos].timestamp() < h.timestamp()", ["C01"], "tie-break in in-memory insertion")
 mut("c01_push_lt_only_gt4", "src/blob/index/core.rs",
-    "pos = v.binary_search_by(|item| item.timestamp().cmp(&h.timestamp())).unwrap_or_else(|e| e);",
-    "pos = v.binary_search_by(|item| item.timestamp().cmp(&h.timestamp())).map(|p| p + 1).unwrap_or_else(|e| e); v.insert(pos, h); data.register_record_allocation(0); return Ok(());",
-    ["C01"], "mis-orders ties only once a key has more than four versions")
+    "while pos < v.len() && v[pos].timestamp() <= h.timestamp() {",
+    "while pos < v.len() && (v[pos].timestamp() < h.timestamp() || (v.len() <= 4 && v[pos].timestamp() == h.timestamp())) {",
+    ["C01"], "mis-orders ties only once a key has more than four versions (binary-search insertion path)")
 mut("c01_latest_ge", "src/storage/read_result.rs", """    pub fn latest(self, other: ReadResult<Entry>) -> ReadResult<Entry> {
         if other.timestamp() > self.timestamp() {""", """    pub fn latest(self, other: ReadResult<Entry>) -> ReadResult<Entry> {
         if other.timestamp() >= self.timestamp() {""", ["C01"], "cross-blob tie goes to the older blob")
@@ -42,8 +42,9 @@ mut("c04_close_no_push", "src/storage/core.rs", """                ablob.fsyncda
                 safe.blobs.write().await.push(ablob).await;""", """                ablob.fsyncdata().await?;
                 if ablob.records_count() > 0 { safe.blobs.write().await.push(ablob).await; }""", ["C04", "C15"], "closing an empty active blob forgets it")
 # ---- C09
-mut("c09_leaf_pack", "src/blob/index/bptree/serializer.rs", "            if remainder < record_header_size {", "            if remainder <= record_header_size {", ["C09"], "leaf packing off-by-one")
-mut("c09_go_right_le", "src/blob/index/bptree/core.rs", "        while offset + record_header_size < right_bound {", "        while offset + record_header_size <= right_bound {", ["C09"], "equivalent? (go_right boundary)")
+mut("c09_leaf_pack_eq", "src/blob/index/bptree/serializer.rs", "            if remainder < record_header_size {", "            if remainder <= record_header_size {", ["C09"], "EQUIVALENT: starts a new leaf one header early, still a valid tree")
+mut("c09_leaf_pack", "src/blob/index/bptree/serializer.rs", "            if remainder < record_header_size {", "            if remainder + 1 < record_header_size {", ["C09"], "leaf packing off-by-one: a header may cross the 4 KiB block end")
+mut("c09_go_right_le", "src/blob/index/bptree/core.rs", "        while offset + record_header_size < right_bound {", "        while offset + record_header_size <= right_bound {", ["C09"], "EQUIVALENT: last in-buffer header read from the buffer instead of the file")
 mut("c09_leftmost_early", "src/blob/index/bptree/core.rs", "        while offset > 0 {\n            offset = offset.saturating_sub(record_header_size);", "        while offset > record_header_size {\n            offset = offset.saturating_sub(record_header_size);", ["C09", "C01"], "get_leftmost stops one early")
 mut("c09_key_offset", "src/blob/index/bptree/node.rs", "            Ok(pos) => pos + 1,\n            Err(pos) => pos,\n        };\n        let offset = offsets_offset", "            Ok(pos) => pos,\n            Err(pos) => pos,\n        };\n        let offset = offsets_offset", ["C09"], "exact-key hit goes to the left child")
 mut("c09_min_amount", "src/blob/index/bptree/serializer.rs", "        let min_amount = (max_amount - 1) / 2 + 1;", "        let min_amount = (max_amount - 1) / 2;", ["C09"], "node grouping (equivalent unless layer sizes mismatch)")
